@@ -53,7 +53,7 @@ def sameState (a b : String) : Bool :=
              | _, _ => false)
 
 def propsOf (op : String) : List String :=
-  if op.startsWith "cache" then ["C13"] else if op.endsWith "wide" then ["C04", "C05"] else ["C04"]
+  if op.startsWith "cache" then ["C13", "C11", "C19"] else if op.endsWith "wide" then ["C04", "C05"] else ["C04"]
 
 def fsLine (st : FsRun) (lineNo : Nat) (line : String) : Except String (FsRun × List String) :=
   match line.splitOn "\t" with
@@ -65,6 +65,8 @@ def fsLine (st : FsRun) (lineNo : Nat) (line : String) : Except String (FsRun ×
     let model := (atomicWrite [[0]] 0o600).map renderCall
     let o1 := if seqHolds seq then [] else
       (propsOf (get "op")).map fun p => s!"PROPFAIL {p} write_protocol line={lineNo} op={get "op"} seq={get "seq"}"
+    let o1 := o1 ++ (if get "postok" == "0" then
+      (propsOf (get "op")).map fun p => s!"PROPFAIL {p} flush_whole_document line={lineNo} op={get "op"} after the write the cache file is not the document that was written: post={(get "post").take 300}" else [])
     let o2 := if mergeWrites seq' == model then [] else
       [s!"DIVERGE fsseq line={lineNo} op={get "op"} code={get "seq"} model={joinWith "," model}"]
     .ok ({ st with cases := st.cases + 1, fails := st.fails + o1.length, diverges := st.diverges + o2.length,
